@@ -377,6 +377,16 @@ package httpserver
 //@   ensures [logged_unless_under_an_except_path] result == forall(k, 0, len(l.Exceptions), !Path(path).Matches(l.Exceptions[k]))
 //@   loop 1 invariant 0 <= #i && #i <= len(l.Exceptions) && forall(k, 0, #i, !Path(path).Matches(l.Exceptions[k]))
 
+//@ unit listener_tls_group frames=on props=C06 filter=`httpserver\.makeTLSConfig$`
+//@ // "a configuration that would put TLS and plaintext sites on one listener is rejected": the mixing check lives in
+//@ // caskettls.MakeTLSConfig, so the TLS settings of EVERY site of the listener group reach it, in order, none left out.
+//@ extern github.com/tmpim/casket/caskettls.MakeTLSConfig
+//@ func makeTLSConfig
+//@   requires forall(k, 0, len(group), group[k] != nil && group[k].TLS != nil)
+//@   modifies Config.ALPN
+//@   at call github.com/tmpim/casket/caskettls.MakeTLSConfig assert [every_site_of_the_group_is_checked] len(arg0) == len(group) && forall(k, 0, len(group), arg0[k] == group[k].TLS)
+//@   loop 1 invariant 0 <= #i && #i <= len(group) && len(tlsConfigs) == #i && forall(k, 0, #i, tlsConfigs[k] == group[k].TLS)
+
 //@ unit split_host_path frames=on props=C01 filter=`vhostTrie\)\.splitHostPath$`
 //@ // "host matching ignores letter case and port": the key both Insert and Match look up is the lower-cased text before the
 //@ // first slash, with the port removed exactly when net.SplitHostPort accepts it as host:port (hostOf/hasPort below ARE
